@@ -490,18 +490,42 @@ func TestRaceChangeSetSnapshots(t *testing.T) {
 		// sequential reference run
 		type snap struct{ changes, deletes int }
 		ref := map[string]snap{}
+		// two thirds of the cases start on existing state (half of the keys, older values, in the lower store), so that
+		// the writer replaces existing nodes and the set of deleted nodes grows as well
+		base := util.NewMemoryNodeDB()
+		var groot util.Key
+		if gen.Chance(rt, 66, "genesis") {
+			g := mptkit.NewTrie(base, version, nil)
+			for i := 0; i < nkeys; i += 2 {
+				if _, err := g.Insert(util.Path(keyOf(i)), mptkit.Val(valOf(i, 251))); err != nil {
+					rt.Fatalf("HARNESS: %v", err)
+				}
+			}
+			groot = g.GetRoot()
+		}
+		validDeletes := map[int]bool{0: true}
+		rootIdx := map[string]int{string(groot): 0} // root -> number of writer operations applied (-1: reached twice)
+		delCounts := []int{0}
 		{
-			m := mptkit.NewTrie(util.NewLevelNodeDB(util.NewMemoryNodeDB(), util.NewMemoryNodeDB(), false), version, nil)
-			ref[""] = snap{0, 0}
+			m := mptkit.NewTrie(util.NewLevelNodeDB(util.NewMemoryNodeDB(), base, false), version, groot)
+			ref[string(groot)] = snap{0, 0}
 			for _, o := range script {
 				if _, err := m.Insert(util.Path(keyOf(o.i)), mptkit.Val(valOf(o.i, o.round))); err != nil {
 					rt.Fatalf("HARNESS: %v", err)
 				}
 				r, c, d, _ := m.GetChanges()
 				ref[string(r)] = snap{len(c), len(d)}
+				nd := len(m.GetDeletes())
+				validDeletes[nd] = true
+				delCounts = append(delCounts, nd)
+				if _, dup := rootIdx[string(r)]; dup {
+					rootIdx[string(r)] = -1
+				} else {
+					rootIdx[string(r)] = len(delCounts) - 1
+				}
 			}
 		}
-		mpt := mptkit.NewTrie(util.NewLevelNodeDB(util.NewMemoryNodeDB(), util.NewMemoryNodeDB(), false), version, nil)
+		mpt := mptkit.NewTrie(util.NewLevelNodeDB(util.NewMemoryNodeDB(), base, false), version, groot)
 		var mu sync.Mutex
 		failure := ""
 		fail := func(f string, a ...any) {
@@ -572,13 +596,34 @@ func TestRaceChangeSetSnapshots(t *testing.T) {
 						fail("torn change set: root %x belongs to %d changes / %d deletes, GetChanges returned %d / %d", root, want.changes, want.deletes, len(changes), len(deletes))
 						return
 					}
+					// GetDeletes on its own is atomic too: its size is that of some prefix of the writer's sequence
+					r1 := mpt.GetRoot()
+					nd := len(mpt.GetDeletes())
+					r2 := mpt.GetRoot()
+					if !validDeletes[nd] {
+						fail("GetDeletes returned %d nodes; after no prefix of the writer's sequence are there that many deleted nodes", nd)
+						return
+					}
+					// bracketed by two root reads: the call took effect somewhere between the two states
+					if i1, ok1 := rootIdx[string(r1)]; ok1 && i1 >= 0 {
+						if i2, ok2 := rootIdx[string(r2)]; ok2 && i2 >= i1 {
+							okCount := false
+							for j := i1; j <= i2; j++ {
+								okCount = okCount || delCounts[j] == nd
+							}
+							if !okCount {
+								fail("GetDeletes returned %d nodes between the writer's operations %d and %d, where the deleted set has %v nodes", nd, i1, i2, delCounts[i1:i2+1])
+								return
+							}
+						}
+					}
 					// three of four snapshots are only compared with the reference table (cheap, so that many
 					// snapshots are taken while the writer runs); every fourth is read in full
 					if n%4 != 1 {
 						continue
 					}
 					// what was returned is the caller's snapshot: read it while the writer goes on
-					seenRoot := len(root) == 0
+					seenRoot := len(root) == 0 || want.changes == 0 // nothing changed yet: the root is the one the trie was opened at
 					for _, c := range changes {
 						if bytes.Equal(c.New.GetHashBytes(), root) {
 							seenRoot = true
@@ -591,7 +636,7 @@ func TestRaceChangeSetSnapshots(t *testing.T) {
 						fail("change set returned with root %x does not contain that root node", root)
 						return
 					}
-					if mpt.GetChangeCount() < 0 || len(mpt.GetDeletes()) < 0 {
+					if mpt.GetChangeCount() < 0 {
 						return
 					}
 				}
